@@ -16,7 +16,7 @@ use crate::{
 use pyo3::prelude::*;
 use socket2::{Domain, Protocol, Socket, Type};
 use std::net::SocketAddr;
-use std::time::Duration;
+use std::time::{Duration, Instant};
 
 pub(crate) trait SnmpSocket
 where
@@ -127,14 +127,46 @@ where
         T: PyOp<'a, V>,
         V: 'a,
     {
+        // The socket timeout applies to every single recv(), while the skipped
+        // replies must not extend the overall timeout of the request:
+        // count against a deadline and restore the socket timeout afterwards.
+        // Non-blocking sockets have no timeout set.
+        let timeout = self.get_io().read_timeout().unwrap_or(None);
+        let deadline = timeout.map(|t| Instant::now() + t);
+        let r = self._recv_until::<T, V>(iter, deadline);
+        if timeout.is_some() {
+            let _ = self.get_io().set_read_timeout(timeout);
+        }
+        r
+    }
+
+    fn _recv_until<'a, T, V>(
+        &mut self,
+        iter: Option<&mut GetIter>,
+        deadline: Option<Instant>,
+    ) -> PyResult<PyObject>
+    where
+        T: PyOp<'a, V>,
+        V: 'a,
+    {
         // Get buffer from pool
         let mut h = get_buffer_pool().acquire();
         let buf = h.as_mut();
+        let mut skipped = false;
         // We can catch unwanted replies, so do it in a loop
         loop {
             // Nested scope to release io early after receiving message
             let msg = {
                 let io = self.get_io();
+                if let (true, Some(d)) = (skipped, deadline) {
+                    // Wait only for the rest of the request timeout
+                    let left = d.saturating_duration_since(Instant::now());
+                    if left.is_zero() {
+                        return Err(SnmpError::WouldBlock.into());
+                    }
+                    io.set_read_timeout(Some(left))
+                        .map_err(|e| SnmpError::SocketError(e.to_string()))?;
+                }
                 let data = Self::recv_socket(io, buf)?;
                 // Decode message
                 Self::Message::try_from(data)?
@@ -145,6 +177,7 @@ where
                 }
                 None => {
                     buf.reset();
+                    skipped = true;
                     continue;
                 }
             }
